@@ -1,4 +1,53 @@
+//! bodyx — bounded-exhaustive enumeration engine for C12 (extractor limits) and C13 (content coding).
+//! `bodyx C12|C13 --tier quick|thorough [--replay file]`
+
+mod c12;
+mod c13;
+mod common;
+mod rfc;
+
 fn main() {
-    eprintln!("MACHINERY: engine bodyx is not built yet");
-    std::process::exit(2);
+    let args = mc_core::cli::parse();
+    // subject panics are outcomes (caught per case); keep their default message off stderr
+    let default_hook = std::panic::take_hook();
+    std::panic::set_hook(Box::new(move |info| {
+        if let Some(m) = info.payload().downcast_ref::<mc_core::MachineryError>() {
+            eprintln!("MACHINERY: {}", m.0);
+        } else if std::env::var("VERIF_SHOW_PANICS").is_ok() {
+            default_hook(info);
+        }
+    }));
+    let code = std::panic::catch_unwind(|| {
+        if let Some(path) = &args.replay {
+            let v = mc_core::report::read_replay(path);
+            match args.property.as_str() {
+                "C12" => c12::replay(&v),
+                "C13" => c13::replay(&v),
+                p => {
+                    eprintln!("MACHINERY: bodyx does not serve property {p}");
+                    2
+                }
+            }
+        } else {
+            match args.property.as_str() {
+                "C12" => c12::main(&args.tier, args.wall_s),
+                "C13" => c13::main(&args.tier, args.wall_s),
+                p => {
+                    eprintln!("MACHINERY: bodyx does not serve property {p}");
+                    2
+                }
+            }
+        }
+    });
+    match code {
+        Ok(c) => std::process::exit(c),
+        Err(p) => {
+            if let Some(m) = p.downcast_ref::<mc_core::MachineryError>() {
+                eprintln!("MACHINERY: {}", m.0);
+            } else {
+                eprintln!("MACHINERY: engine panicked: {}", common::panic_msg(p));
+            }
+            std::process::exit(2)
+        }
+    }
 }
